@@ -498,6 +498,7 @@ var (
 	funcPin  = map[*types.Func]string{}     // renamed functions/methods -> pinned bare name
 	globPin  = map[*types.Var]string{}      // renamed package-level variables -> pinned name
 	canonUnk = map[*types.TypeName]bool{}   // during type alignment: types rendered as "?"
+	funcShow = map[*types.Func]string{}     // functions that took over a pinned method's role (or the reverse): display name
 )
 
 // TypeNameOf is the pinned name of a named type.
@@ -589,6 +590,12 @@ func pinnedRelName(fn *ssa.Function) (string, bool) {
 	o, isF := fn.Object().(*types.Func)
 	if !isF || o == nil || fn.Synthetic != "" {
 		return "", false
+	}
+	pinMu.Lock()
+	show, hasShow := funcShow[o]
+	pinMu.Unlock()
+	if hasShow {
+		return show, true
 	}
 	name, renamed := funcPinned(o)
 	if !renamed {
@@ -787,6 +794,43 @@ func (p *Program) pinPackages(pkgs []*types.Package) {
 			for _, r := range ren {
 				pinRenames = append(pinRenames, "func "+short+": "+r)
 			}
+			// a method turned into a plain function of the same name taking the receiver as its first parameter (or
+			// the reverse): same role, the pinned spelling is kept for it
+			curSet := map[string]bool{}
+			for i := range fns {
+				curSet[names[i]] = true
+			}
+			for _, pe := range pin {
+				if curSet[pe.name] {
+					continue
+				}
+				bare := pe.name[strings.LastIndex(pe.name, ".")+1:]
+				pre := pe.name[:len(pe.name)-len(bare)] // "(*T)." or ""
+				for i, f := range fns {
+					if f.Name() != bare || names[i] == pe.name {
+						continue
+					}
+					sig, _ := f.Type().(*types.Signature)
+					if sig == nil {
+						continue
+					}
+					match := false
+					if pre != "" && sig.Recv() == nil && sig.Params().Len() >= 1 {
+						// pinned method, now a function: first parameter is the old receiver
+						rt := "(" + strings.TrimPrefix(canonType(sig.Params().At(0).Type()), short+".") + ")."
+						rt = strings.Replace(rt, "(*"+short+".", "(*", 1)
+						match = rt == pre
+					} else if pre == "" && sig.Recv() != nil {
+						match = true // pinned function, now a method of some type of the package
+					}
+					if match {
+						funcShow[f] = pe.name
+						p.funcUnpin[short+"."+pe.name] = f
+						pinStats["func-reshaped"]++
+						pinRenames = append(pinRenames, "func "+short+": "+names[i]+" stands for "+pe.name)
+					}
+				}
+			}
 		}
 		// variables
 		if pin := splitPinned(PinnedGlobals[short]); len(pin) > 0 {
@@ -869,4 +913,16 @@ func dumpPackageLevel(p *Program) (tps, fns, globs map[string][]string) {
 		}
 	}
 	return
+}
+
+// ParamIndex is the position (receiver included, as in ssa.Function.Params and CallCommon.Args of a static call) of the
+// parameter with the given pinned name; -1 if there is none.  Rules use it instead of a fixed position so that a
+// reordered parameter list does not change what they look at.
+func ParamIndex(fn *ssa.Function, name string) int {
+	for i, p := range fn.Params {
+		if ParamName(p) == name {
+			return i
+		}
+	}
+	return -1
 }
